@@ -29,6 +29,9 @@ type Fact struct {
 	// Alias: this (phi) value is, on the current path, a copy of that value (possibly behind NOTs): assuming the one
 	// assumes the other. Set by EnterBlock when the incoming operand carries no fact of its own.
 	Alias ssa.Value
+	// integer interval (for small counters and constants): known lower / upper bound
+	HasLo, HasHi bool
+	Lo, Hi       int64
 }
 
 func (f Fact) key() string {
@@ -36,11 +39,22 @@ func (f Fact) key() string {
 	if f.Alias != nil {
 		a = f.Alias.Name()
 	}
-	return fmt.Sprintf("%d/%s/%s/%d/%d/%s", f.Nil, f.Sent, strings.Join(f.Not, ","), f.App, f.Bool, a)
+	iv := ""
+	if f.HasLo || f.HasHi {
+		lo, hi := f.Lo, f.Hi
+		if !f.HasLo {
+			lo = 0
+		}
+		if !f.HasHi {
+			hi = 0
+		}
+		iv = fmt.Sprintf("[%v%d,%v%d]", f.HasLo, lo, f.HasHi, hi)
+	}
+	return fmt.Sprintf("%d/%s/%s/%d/%d/%s%s", f.Nil, f.Sent, strings.Join(f.Not, ","), f.App, f.Bool, a, iv)
 }
 
 func (f Fact) zero() bool {
-	return f.Nil == Unknown && f.Sent == "" && len(f.Not) == 0 && f.App == Unknown && f.Bool == Unknown && f.Alias == nil
+	return f.Nil == Unknown && f.Sent == "" && len(f.Not) == 0 && f.App == Unknown && f.Bool == Unknown && f.Alias == nil && !f.HasLo && !f.HasHi
 }
 
 // Facts maps SSA values (and Alloc cells, for variables that live in memory) to facts.
@@ -112,7 +126,36 @@ func (fs Facts) Eval(v ssa.Value) Fact {
 			}
 			return Fact{Bool: No}
 		}
+		if isIntType(x.Type()) {
+			if k, ok := ConstInt(x); ok {
+				return Fact{HasLo: true, HasHi: true, Lo: k, Hi: k}
+			}
+		}
 		return Fact{}
+	case *ssa.BinOp:
+		if (x.Op == token.ADD || x.Op == token.SUB) && isIntType(x.Type()) {
+			if k, ok := ConstInt(x.Y); ok {
+				if _, isC := x.Y.(*ssa.Const); isC {
+					f := fs.Eval(x.X)
+					if !f.HasLo && !f.HasHi {
+						return fs[v]
+					}
+					if x.Op == token.SUB {
+						k = -k
+					}
+					return Fact{HasLo: f.HasLo, HasHi: f.HasHi, Lo: f.Lo + k, Hi: f.Hi + k}
+				}
+			}
+		}
+		return fs[v]
+	case *ssa.Convert:
+		if isIntType(x.Type()) && isIntType(x.X.Type()) {
+			f := fs.Eval(x.X)
+			if f.HasLo || f.HasHi {
+				return Fact{HasLo: f.HasLo, HasHi: f.HasHi, Lo: f.Lo, Hi: f.Hi}
+			}
+		}
+		return fs[v]
 	case *ssa.MakeInterface:
 		return Fact{Nil: No}
 	case *ssa.UnOp:
@@ -174,6 +217,11 @@ func (fs Facts) Assume(cond ssa.Value, truth bool) bool {
 			return fs.Assume(c.X, !truth)
 		}
 	case *ssa.BinOp:
+		if isIntType(c.X.Type()) && isIntType(c.Y.Type()) {
+			if ok, decided := fs.assumeInt(c, truth); decided {
+				return ok
+			}
+		}
 		if c.Op == token.EQL || c.Op == token.NEQ {
 			eq := (c.Op == token.EQL) == truth
 			x, y := c.X, c.Y
@@ -324,11 +372,157 @@ func (fs Facts) EnterBlock(b, pred *ssa.BasicBlock) {
 		if _, isConst := phi.Edges[idx].(*ssa.Const); !isConst && f.zero() && isBool(phi.Type()) {
 			f = Fact{Alias: phi.Edges[idx]}
 		}
+		if isIntType(phi.Type()) && (f.HasLo || f.HasHi) && b.Dominates(pred) {
+			// back edge of a loop: widen so that the state space stays finite - keep "beyond the initial value" only
+			f.HasHi = false
+			if f.HasLo {
+				init, known := int64(0), false
+				for j, p := range b.Preds {
+					if !b.Dominates(p) {
+						if k, ok := ConstInt(phi.Edges[j]); ok {
+							if !known || k < init {
+								init, known = k, true
+							}
+						} else {
+							known = false
+							break
+						}
+					}
+				}
+				if known && f.Lo > init+1 {
+					f.Lo = init + 1
+				} else if !known {
+					f.HasLo = false
+				}
+			}
+		}
 		us = append(us, upd{phi, f})
 	}
 	for _, u := range us {
 		fs.Set(u.phi, u.f)
 	}
+}
+
+func isIntType(t types.Type) bool {
+	b, ok := t.Underlying().(*types.Basic)
+	return ok && b.Info()&types.IsInteger != 0
+}
+
+// assumeInt refines integer interval facts with (x op y) == truth where one side is a constant. decided is false when
+// the comparison has no constant side (nothing is learnt); ok is false when the edge is infeasible.
+func (fs Facts) assumeInt(c *ssa.BinOp, truth bool) (ok, decided bool) {
+	op := c.Op
+	x, y := c.X, c.Y
+	k, isK := ConstInt(y)
+	if _, isC := y.(*ssa.Const); !isC {
+		isK = false
+	}
+	if !isK {
+		// constant on the left: mirror
+		if kk, ok2 := ConstInt(x); ok2 {
+			if _, isC := x.(*ssa.Const); isC {
+				k, isK = kk, true
+				x = y
+				switch op {
+				case token.LSS:
+					op = token.GTR
+				case token.LEQ:
+					op = token.GEQ
+				case token.GTR:
+					op = token.LSS
+				case token.GEQ:
+					op = token.LEQ
+				}
+			}
+		}
+	}
+	if !isK {
+		return true, false
+	}
+	if !truth {
+		switch op {
+		case token.LSS:
+			op = token.GEQ
+		case token.LEQ:
+			op = token.GTR
+		case token.GTR:
+			op = token.LEQ
+		case token.GEQ:
+			op = token.LSS
+		case token.EQL:
+			op = token.NEQ
+		case token.NEQ:
+			op = token.EQL
+		default:
+			return true, false
+		}
+	}
+	f := fs.Eval(x)
+	lo, hi, hasLo, hasHi := f.Lo, f.Hi, f.HasLo, f.HasHi
+	switch op {
+	case token.EQL:
+		if (hasLo && k < lo) || (hasHi && k > hi) {
+			return false, true
+		}
+		lo, hi, hasLo, hasHi = k, k, true, true
+	case token.NEQ:
+		if hasLo && hasHi && lo == hi && lo == k {
+			return false, true
+		}
+		if hasLo && lo == k {
+			lo++
+		}
+		if hasHi && hi == k {
+			hi--
+		}
+	case token.LSS:
+		if hasLo && lo >= k {
+			return false, true
+		}
+		if !hasHi || hi > k-1 {
+			hi, hasHi = k-1, true
+		}
+	case token.LEQ:
+		if hasLo && lo > k {
+			return false, true
+		}
+		if !hasHi || hi > k {
+			hi, hasHi = k, true
+		}
+	case token.GTR:
+		if hasHi && hi <= k {
+			return false, true
+		}
+		if !hasLo || lo < k+1 {
+			lo, hasLo = k+1, true
+		}
+	case token.GEQ:
+		if hasHi && hi < k {
+			return false, true
+		}
+		if !hasLo || lo < k {
+			lo, hasLo = k, true
+		}
+	default:
+		return true, false
+	}
+	// record on the variable itself (phis and loads are variables; arithmetic is not tracked back)
+	record := false
+	switch xx := x.(type) {
+	case *ssa.Phi, *ssa.Parameter, *ssa.Call, *ssa.Extract:
+		record = true
+	case *ssa.UnOp:
+		// loads: only of local cells, whose stores Step tracks
+		if xx.Op == token.MUL {
+			_, record = xx.X.(*ssa.Alloc)
+		}
+	}
+	if record {
+		g := fs[target(x)]
+		g.Lo, g.Hi, g.HasLo, g.HasHi = lo, hi, hasLo, hasHi
+		fs.Set(target(x), g)
+	}
+	return true, true
 }
 
 func isBool(t types.Type) bool {
